@@ -177,13 +177,16 @@ def one(binary, rec, idx, seed, work, pem):
         key_b64 = base64.b64encode(open(keyp, "rb").read()).decode()
         key_body = "".join(l for l in open(keyp).read().splitlines() if "-----" not in l)
         secrets = [key_b64, key_body[:48], key_b64[40:120]]
-        if item in ("cacert", "cacertSlashes"):
+        if item in ("cacert", "cacertSlashes", "cacertAfterPath"):
             # a bundle that holds the key as well as the certificate
             bundle = open(keyp, "rb").read() + (b"" if refusal == "no-cert" else open(pem["cert"], "rb").read())
             bundle_b64 = base64.b64encode(bundle).decode()
             secrets = [bundle_b64, key_b64[:-4], key_body[:48], bundle_b64[40:120]]
             opts["cacert-file"] = ("data://base64," if item == "cacertSlashes" else "data:base64,") + bundle_b64
             rendering = "cacert-file=data:xxxxx"       # a list: shown as [data:xxxxx] in the log, joined in /configz
+            if item == "cacertAfterPath":
+                opts["cacert-file"] = pem["cert"] + ",data:base64," + bundle_b64
+                rendering = "data:xxxxx"
         elif item == "mitm-ca":
             opts["mitm"] = "true"
             opts["mitm-cacert-file"] = "data:base64," + cert_b64
@@ -314,7 +317,7 @@ def one(binary, rec, idx, seed, work, pem):
                 return res
     # 2. the non-secret parts stay visible, with the placeholder
     if "skip" not in res:
-        if item in ("cacert", "cacertSlashes"):
+        if item in ("cacert", "cacertSlashes", "cacertAfterPath"):
             sinks = {k: v.replace("[data:xxxxx]", "data:xxxxx") for k, v in sinks.items()}
         if "200" in sinks["configz"].split("\r\n")[0] and rendering not in sinks["configz"]:
             res["ok"], res["why"], res["sink"] = False, "/configz does not show the redacted rendering " + rendering, "configz"
